@@ -395,6 +395,7 @@ def handle (line : String) : String :=
       let ts := schemaToks s
       let back := parseSchema (8 * ts.length + 64) ts
       "D " ++ " ".intercalate (ts.map dtokStr) ++ (if back == some (s.erase, []) then " | roundtrip-ok" else " | roundtrip-differs")
+        ++ (if orderedSpine s.decls then " | order-ok" else " | order-differs")
     | _ => "bad-op"
   | "typedecl" :: rest =>
     -- `typedecl <hex name> (T <type> | EN <n> <hex>… | SL <n> <hex>…) <n rules> <label|->…`
